@@ -1286,3 +1286,139 @@ Proof.
   unfold numeric_lines, d_report, report_lines; simpl.
   destruct (stats (d_sample_counts q (transpose_t t))) as [[[mn mx] med] avg]. destruct q; split; reflexivity.
 Qed.
+
+(* ------------------------------------------------------------------ metadata export: every key fills exactly its columns *)
+Fixpoint wget (k : Tree) (w : list (Tree * nat)) : option nat :=
+  match w with
+  | [] => None
+  | (k', n) :: t => if tree_eqb k k' then Some n else wget k t
+  end.
+
+Lemma tree_eqb_neq a b : tree_eqb a b = false <-> a <> b.
+Proof.
+  split.
+  - intros H E. subst. rewrite tree_eqb_refl in H. discriminate.
+  - intros H. destruct (tree_eqb a b) eqn:E; [|reflexivity]. apply tree_eqb_eq in E. contradiction.
+Qed.
+
+Lemma wget_wset k0 k m w :
+  wget k0 (wset k m w) =
+  if tree_eqb k0 k then Some (match wget k w with Some n' => Nat.max n' m | None => m end) else wget k0 w.
+Proof.
+  induction w as [|[k' n'] w IH]; simpl.
+  - destruct (tree_eqb k0 k); reflexivity.
+  - destruct (tree_eqb k k') eqn:E; simpl.
+    + apply tree_eqb_eq in E. subst k'. destruct (tree_eqb k0 k); reflexivity.
+    + destruct (tree_eqb k0 k') eqn:E2.
+      * apply tree_eqb_eq in E2. subst k'. replace (tree_eqb k0 k) with false; [reflexivity|].
+        symmetry. apply tree_eqb_neq. apply tree_eqb_neq in E. congruence.
+      * exact IH.
+Qed.
+
+Lemma wset_keys_NoDup k m w : NoDup (map fst w) -> NoDup (map fst (wset k m w)).
+Proof.
+  induction w as [|[k' n'] w IH]; simpl; intros H.
+  - constructor; [intros []|constructor].
+  - inversion H as [|? ? Hk Hn]; subst. destruct (tree_eqb k k') eqn:E; simpl.
+    + constructor; assumption.
+    + constructor; [|apply IH; exact Hn]. intros Hin. apply Hk. clear IH H Hn Hk.
+      induction w as [|[k2 n2] w IH]; simpl in *.
+      * destruct Hin as [Hin|[]]. apply tree_eqb_neq in E. congruence.
+      * destruct (tree_eqb k k2); simpl in Hin; destruct Hin as [Hin|Hin]; auto.
+Qed.
+
+Lemma wget_In k n w : NoDup (map fst w) -> In (k, n) w -> wget k w = Some n.
+Proof.
+  induction w as [|[k' n'] w IH]; simpl; intros H Hin; [contradiction|].
+  inversion H as [|? ? Hk Hn]; subst. destruct Hin as [Hin|Hin].
+  - inversion Hin; subst. rewrite tree_eqb_refl. reflexivity.
+  - destruct (tree_eqb k k') eqn:E.
+    + apply tree_eqb_eq in E. subst. exfalso. apply Hk. apply in_map_iff. exists (k', n). split; [reflexivity|exact Hin].
+    + apply IH; assumption.
+Qed.
+
+Definition wbound (w : list (Tree * nat)) (kv : Tree) : Prop :=
+  exists n, wget (kv_key kv) w = Some n /\ kv_width kv <= n.
+
+Lemma wbound_wset_keep k m w kv : wbound w kv -> wbound (wset k m w) kv.
+Proof.
+  intros [n [G L]]. unfold wbound. rewrite wget_wset. destruct (tree_eqb (kv_key kv) k) eqn:E.
+  - apply tree_eqb_eq in E. rewrite <- E, G. exists (Nat.max n m). split; [reflexivity|lia].
+  - exists n. split; assumption.
+Qed.
+
+Lemma wbound_wset_new w kv : wbound (wset (kv_key kv) (kv_width kv) w) kv.
+Proof.
+  unfold wbound. rewrite wget_wset, tree_eqb_refl.
+  destruct (wget (kv_key kv) w) as [n'|]; eexists; split; try reflexivity; lia.
+Qed.
+
+Definition wstep (w : list (Tree * nat)) (kv : Tree) := wset (kv_key kv) (kv_width kv) w.
+
+Lemma entry_fold_inv kvs : forall w,
+  NoDup (map fst w) ->
+  NoDup (map fst (fold_left wstep kvs w)) /\
+  (forall kv, wbound w kv -> wbound (fold_left wstep kvs w) kv) /\
+  (forall kv, In kv kvs -> wbound (fold_left wstep kvs w) kv).
+Proof.
+  induction kvs as [|kv0 kvs IH]; intros w N; simpl.
+  - split; [exact N|]. split; [auto|intros kv []].
+  - destruct (IH (wstep w kv0) (wset_keys_NoDup _ _ _ N)) as (A & B & C). split; [exact A|]. split.
+    + intros kv H. apply B. apply wbound_wset_keep. exact H.
+    + intros kv [H|H]; [subst; apply B; apply wbound_wset_new|apply C; exact H].
+Qed.
+
+Lemma widths_inv md : forall w,
+  NoDup (map fst w) ->
+  NoDup (map fst (fold_left (fun w e => fold_left wstep (tL e) w) md w)) /\
+  (forall kv, wbound w kv -> wbound (fold_left (fun w e => fold_left wstep (tL e) w) md w) kv) /\
+  (forall e kv, In e md -> In kv (tL e) -> wbound (fold_left (fun w e => fold_left wstep (tL e) w) md w) kv).
+Proof.
+  induction md as [|e0 md IH]; intros w N; simpl.
+  - split; [exact N|]. split; [auto|intros e kv []].
+  - destruct (entry_fold_inv (tL e0) w N) as (A0 & B0 & C0).
+    destruct (IH _ A0) as (A & B & C). split; [exact A|]. split.
+    + intros kv H. apply B. apply B0. exact H.
+    + intros e kv [He|He] Hkv; [subst; apply B; apply C0; exact Hkv|apply (C e kv He Hkv)].
+Qed.
+
+Lemma lookup_kv_In k kvs v : lookup_kv k kvs = Some v -> exists kv, In kv kvs /\ kv_key kv = k /\ kv_val kv = v.
+Proof.
+  induction kvs as [|kv kvs IH]; simpl; [discriminate|].
+  destruct (tree_eqb k (kv_key kv)) eqn:E.
+  - intros H. inversion H; subst. apply tree_eqb_eq in E. exists kv. repeat split; [left; reflexivity|symmetry; exact E].
+  - intros H. destruct (IH H) as (kv' & A & B & C). exists kv'. repeat split; [right; exact A|exact B|exact C].
+Qed.
+
+(* whatever the metadata: in every row, every key fills exactly the columns that carry its label
+   (no value can land under another key's label, no row is longer or shorter than the label list) *)
+Theorem md_df_aligned md e kn : In e md -> In kn (widths md) ->
+  length (key_cells e kn) = length (key_columns kn).
+Proof.
+  intros He Hkn. destruct kn as [k n]. unfold key_cells, key_columns. cbn [fst snd].
+  destruct n as [|n']; [reflexivity|]. lazy iota beta. rewrite map_length, seq_length, app_length, repeat_length.
+  assert (Hlen : length (if is_seq (md_get k e) then seq_items (md_get k e)
+                         else if tree_eqb (md_get k e) md_nan then [] else [md_get k e]) <= S n').
+  { destruct (is_seq (md_get k e)) eqn:S1.
+    - unfold md_get in *. destruct (lookup_kv k (tL e)) as [v|] eqn:Lk; [|discriminate].
+      destruct (lookup_kv_In _ _ _ Lk) as (kv & Hkv & Ek & Ev).
+      destruct (widths_inv md [] (NoDup_nil _)) as (N & _ & C).
+      destruct (C e kv He Hkv) as [n2 [G L]]. fold (widths md) in N, G.
+      change (fold_left (fun w e => fold_left wstep (tL e) w) md []) with (widths md) in G, N.
+      rewrite Ek in G. rewrite (wget_In k (S n') (widths md) N Hkn) in G. inversion G; subst n2.
+      unfold kv_width in L. rewrite Ev, S1 in L. exact L.
+    - destruct (tree_eqb (md_get k e) md_nan); simpl; lia. }
+  lia.
+Qed.
+
+Corollary md_df_rect ids md cols rows :
+  md_df ids (Some md) = ROk (cols, rows) -> Forall (fun r => length (snd r) = length cols) rows.
+Proof.
+  unfold md_df. intros H. inversion H; subst; clear H. apply Forall_forall. intros [i r] Hr.
+  apply in_combine_r in Hr. apply in_map_iff in Hr. destruct Hr as [e [E He]]. subst r. simpl.
+  assert (G : forall kn, In kn (widths md) -> length (key_cells e kn) = length (key_columns kn))
+    by (intros kn0 H0; apply (md_df_aligned md); assumption).
+  revert G. generalize (widths md). intros w0 G.
+  induction w0 as [|kn0 w0 IH]; simpl; [reflexivity|].
+  rewrite !app_length, (G kn0) by (left; reflexivity). f_equal. apply IH. intros kn1 H1. apply G. right. exact H1.
+Qed.
